@@ -40,3 +40,20 @@ package kvstore
 //@   requires #inv_in: k.inv() && t != nil && t.inv() && k.tableSize <= 4611686018427387904
 //@   atcall table\.Table\)\.Range$ requires #the_drained_table_is_not_the_active_one [C11 C20]: len(k.tables) > 0 ==> t != k.tables[len(k.tables)-1]
 //@   atcall table\.Table\)\.Reset$ requires #unregistered_before_it_is_reset [C12 C11]: k.tablesByCoefficient != nil && !(t.coefficient in k.tablesByCoefficient)
+
+// Stats adds up every table. Exact sums need a recursive spec function the verifier does not have; what is proved
+// is that every table is counted: the total is at least each table's own figure.
+//@ func (k *KVStore) Stats() storage.Stats
+//@   props C11 C20
+//@   flag termination
+//@   requires #inv_in: k.inv()
+//@   requires #sizes: len(k.tables) <= 1048576 && (forall i int {k.tables[i]} :: 0 <= i && i < len(k.tables) ==> 0 <= len(k.tables[i].hkeys) && len(k.tables[i].hkeys) <= 1099511627776 && k.tables[i].allocated <= 1099511627776 && k.tables[i].inuse <= 1099511627776 && k.tables[i].garbage <= 1099511627776)
+//@   ensures #tables [C11]: result.NumTables == len(k.tables)
+//@   ensures #counts_every_table [C11]: forall i int {k.tables[i]} :: 0 <= i && i < len(k.tables) ==> result.Length >= len(k.tables[i].hkeys)
+//@   ensures #accounts_every_table [C20]: forall i int {k.tables[i]} :: 0 <= i && i < len(k.tables) ==> result.Garbage >= k.tables[i].garbage && result.Inuse >= k.tables[i].inuse && result.Allocated >= k.tables[i].allocated
+//@   loop 0 invariant #shape: -1 <= rangeindex && stats.NumTables == len(k.tables)
+//@   loop 0 invariant #length [C11]: 0 <= stats.Length && stats.Length <= (rangeindex + 1) * 1099511627776 && (forall j int {k.tables[j]} :: 0 <= j && j <= rangeindex && j < len(k.tables) ==> stats.Length >= len(k.tables[j].hkeys))
+//@   loop 0 invariant #inuse [C20]: 0 <= stats.Inuse && stats.Inuse <= (rangeindex + 1) * 1099511627776 && (forall j int {k.tables[j]} :: 0 <= j && j <= rangeindex && j < len(k.tables) ==> stats.Inuse >= k.tables[j].inuse)
+//@   loop 0 invariant #garbage [C20]: 0 <= stats.Garbage && stats.Garbage <= (rangeindex + 1) * 1099511627776 && (forall j int {k.tables[j]} :: 0 <= j && j <= rangeindex && j < len(k.tables) ==> stats.Garbage >= k.tables[j].garbage)
+//@   loop 0 invariant #allocated [C20]: 0 <= stats.Allocated && stats.Allocated <= (rangeindex + 1) * 1099511627776 && (forall j int {k.tables[j]} :: 0 <= j && j <= rangeindex && j < len(k.tables) ==> stats.Allocated >= k.tables[j].allocated)
+//@   modifies nothing
